@@ -40,6 +40,10 @@ def _case(draw, max_nodes):
     c["declared_swapped"] = prob(draw, 0.3)
     # side-effect-only nodes written as generator functions (streaming / logging style): their body runs when drained
     c["side_effect_generators"] = prob(draw, 0.3)
+    # runners that carry a cache: a drawn subset of nodes is cacheable, one of them may also emit an ordering signal a later node
+    # waits for; the graph is run twice on the same runner (second run: warm cache)
+    c["cached"] = draw(st.lists(st.integers(0, 11), max_size=4)) if prob(draw, 0.35) else None
+    c["signal"] = [draw(st.integers(0, 11)), draw(st.integers(0, 11))]
     return c
 
 
@@ -133,6 +137,44 @@ def check_case(case, ev):
         env2, args2 = ref.eval_dag(nodes, v2, bound)
         _oracle("sync:second_run_with_fewer_inputs", case, out, ctx, env2, args2, ref.single_shot(nodes, v2, bound), select)
         labels.add("second_run_with_fewer_inputs")
+
+    # the program on runners that carry a cache (some nodes cacheable, one cached node possibly emitting an ordering signal that a
+    # later node waits for), run twice on the same runner: both runs return the dependency-order values
+    if case.get("cached") is not None:
+        from hypergraph import AsyncRunner, SyncRunner
+        from hypergraph.cache import InMemoryCache
+
+        runnable = [n["name"] for n in nodes if args.get(n["name"]) is not None]
+        cn = {nodes[i % len(nodes)]["name"] for i in case["cached"]} or {nodes[0]["name"]}
+        built2 = [({**n, "cache": True} if n["name"] in cn and n["k"] == "func" and not n.get("gen_style") else dict(n)) for n in built]
+        # an ordering signal only where nothing starts early (every runnable node is single-shot), from a runnable emitter to a later node
+        order_ok = set(runnable) <= ss and len(runnable) >= 2
+        if order_ok:
+            i, j = sorted(x % len(runnable) for x in case["signal"])
+            if i != j:
+                a, b = runnable[i], runnable[j]
+                if a in ref.descendants(nodes, {b}):
+                    a, b = b, a  # the waiter must not be upstream of the emitter
+                for n in built2:
+                    if n["name"] == a:
+                        n["emit"] = ["c01sig"]
+                        if n["k"] == "func" and not n.get("gen_style"):
+                            n["cache"] = True
+                    if n["name"] == b:
+                        n["wait_for"] = ["c01sig"]
+                labels.add("cached_emitter_with_waiter")
+        exp = {k: v for k, v in env.items() if select is None or k in select}
+        for rk in ("sync", "async"):
+            ctx = Ctx()
+            g = make_graph(ctx, {**gspec, "nodes": built2}, "sync")
+            runner = SyncRunner(cache=InMemoryCache()) if rk == "sync" else AsyncRunner(cache=InMemoryCache())
+            for rep in (0, 1):
+                out = (run_sync if rk == "sync" else run_async)(g, values, runner=runner)
+                if out.status != "completed" or out.values != exp:
+                    missing = sorted(set(exp) - set(out.values or {}))
+                    raise Violation("c01.values", f"[{rk}:cache run {rep} ({'warm' if rep else 'cold'}), cacheable={sorted(cn)}] {out.brief()} expected {J(exp)}; missing={missing}",
+                                    what="missing" if missing else "wrong", cached=True)
+        labels.add("cache_two_runs")
 
     # injection of an intermediate value with on_internal_override="ignore" (only when the validator accepts it):
     # the statement's precedence still decides every argument (upstream output of a runnable producer first, then
